@@ -1,7 +1,7 @@
 SPECIFICATION Spec
 CONSTANT TerOnModelChange = TRUE
 CONSTANT CifChargeVerbatim = TRUE
-CONSTANT FullShapes = FALSE
+CONSTANT ShapeLevel = 0
 CONSTANT MaxAtoms = 2
 INVARIANT InvDomain
 INVARIANT InvReadBack
